@@ -88,7 +88,7 @@ TEMPLATES = {
     # name: (hole args, make expr, value type, pre, defs expr or None, tier)
     "renamed_required": ("m: int, rq: bool", 'Element(properties={"a_": Property(Integer(minimum=m), source="a", required=rq)}, required=["b"])', DV, DPRE, None, "quick"),
     "renamed_only": ("m: int, rq: bool", 'Element(properties={"a_": Property(Integer(minimum=m), source="a", required=rq), "b": Property(Element())}, additionalProperties=False)', DV, DPRE, None, "quick"),
-    "explicit_required_only": ("m: int", 'Element(required=["a"], maxProperties=m)', DV, DPRE, None, "thorough"),
+    "explicit_required_only": ("m: int", 'Element(required=["a"], maxProperties=m)', DV, DPRE + ["m >= 0"], None, "thorough"),
     "class_required": ("m: int", 'Object.inline("M", properties={"a": Property(Integer(minimum=m))}, required=["b"])', DV, DPRE, None, "quick"),
     "class_required_default": ("m: int, d: int", 'Object.inline("M", properties={"a": Property(Integer(minimum=m, default=d), required=True), "b_": Property(Integer(), source="b", required=True)})', DV, DPRE, None, "quick"),
     "inherited": ("m: int", "_child(m)", DV, DPRE, None, "quick"),
@@ -137,4 +137,11 @@ def _demo_required_lost():
     return "b" not in serialize_json(el).get("required", [])
 
 
-DEMOS = {"C03-explicit-required-lost": _demo_required_lost}
+def _demo_renamed_key():
+    from vf.common import Element, Property, Integer, serialize_json
+
+    el = Element(properties={"a_": Property(Integer(), source="a")})
+    return "a" not in serialize_json(el)["properties"]
+
+
+DEMOS = {"C03-explicit-required-lost": _demo_required_lost, "C03-renamed-key": _demo_renamed_key}
